@@ -1867,6 +1867,9 @@ rrul_fill_Hly(echs_instant_t *restrict tgt, size_t nti, rrulsp_t rr)
 	/* check ranges before filling */
 	if (UNLIKELY(y < 1600U || !m || m > 12U || !d || d > 31U)) {
 		goto fin;
+	} else if (UNLIKELY(!rr->inter)) {
+		/* we'd never get anywhere */
+		goto fin;
 	}
 
 	/* check if we're ECHS_ALL_DAY */
@@ -1963,6 +1966,24 @@ rrul_fill_Hly(echs_instant_t *restrict tgt, size_t nti, rrulsp_t rr)
 			     }
 		     }
 	     })) {
+		/* the first instant this candidate could possibly produce */
+		const echs_instant_t lb = {
+			.y = y,
+			.m = m,
+			.d = d,
+			.H = H,
+			.ms = proto.ms,
+		};
+
+		if (UNLIKELY(y > 2099U)) {
+			/* we've left the supported range,
+			 * nothing matched on the way, so that's it */
+			goto fin;
+		} else if (UNLIKELY(echs_instant_lt_p(rr->until, lb))) {
+			/* nothing matched on the way to UNTIL */
+			goto fin;
+		}
+
 		/* we're subtractive, so check if the current ymd matches
 		 * if not, just continue and check the next candidate */
 		if (!(wd_mask & (1U << w))) {
@@ -2133,6 +2154,9 @@ rrul_fill_Mly(echs_instant_t *restrict tgt, size_t nti, rrulsp_t rr)
 	/* check ranges before filling */
 	if (UNLIKELY(y < 1600U || !m || m > 12U || !d || d > 31U)) {
 		goto fin;
+	} else if (UNLIKELY(!rr->inter)) {
+		/* we'd never get anywhere */
+		goto fin;
 	}
 
 	/* fill up the array the naive way */
@@ -2157,6 +2181,25 @@ rrul_fill_Mly(echs_instant_t *restrict tgt, size_t nti, rrulsp_t rr)
 			     }
 		     }
 	     })) {
+		/* the first instant this candidate could possibly produce */
+		const echs_instant_t lb = {
+			.y = y,
+			.m = m,
+			.d = d,
+			.H = H,
+			.M = M,
+			.ms = proto.ms,
+		};
+
+		if (UNLIKELY(y > 2099U)) {
+			/* we've left the supported range,
+			 * nothing matched on the way, so that's it */
+			goto fin;
+		} else if (UNLIKELY(echs_instant_lt_p(rr->until, lb))) {
+			/* nothing matched on the way to UNTIL */
+			goto fin;
+		}
+
 		/* we're subtractive, so check if the current ymd matches
 		 * if not, just continue and check the next candidate */
 		if (!(wd_mask & (1U << w))) {
@@ -2344,6 +2387,9 @@ rrul_fill_Sly(echs_instant_t *restrict tgt, size_t nti, rrulsp_t rr)
 	/* check ranges before filling */
 	if (UNLIKELY(y < 1600U || !m || m > 12U || !d || d > 31U)) {
 		goto fin;
+	} else if (UNLIKELY(!rr->inter)) {
+		/* we'd never get anywhere */
+		goto fin;
 	}
 
 	/* fill up the array the naive way */
@@ -2372,6 +2418,26 @@ rrul_fill_Sly(echs_instant_t *restrict tgt, size_t nti, rrulsp_t rr)
 			     }
 		     }
 	     })) {
+		/* the instant this candidate would produce */
+		const echs_instant_t x = {
+			.y = y,
+			.m = m,
+			.d = d,
+			.H = H,
+			.M = M,
+			.S = S,
+			.ms = proto.ms,
+		};
+
+		if (UNLIKELY(y > 2099U)) {
+			/* we've left the supported range,
+			 * nothing matched on the way, so that's it */
+			goto fin;
+		} else if (UNLIKELY(echs_instant_lt_p(rr->until, x))) {
+			/* nothing matched on the way to UNTIL */
+			goto fin;
+		}
+
 		/* we're subtractive, so check if the current ymd matches
 		 * if not, just continue and check the next candidate */
 		if (!(wd_mask & (1U << w))) {
@@ -2410,16 +2476,7 @@ rrul_fill_Sly(echs_instant_t *restrict tgt, size_t nti, rrulsp_t rr)
 		}
 
 	bang:
-		tgt[res].y = y;
-		tgt[res].m = m;
-		tgt[res].d = d;
-		tgt[res].H = H;
-		tgt[res].M = M;
-		tgt[res].S = S;
-		if (UNLIKELY(echs_instant_lt_p(rr->until, tgt[res]))) {
-			goto fin;
-		}
-		res++;
+		tgt[res++] = x;
 	}
 fin:
 	return res;
